@@ -114,7 +114,14 @@ def census(ctx, outs, typelevel=None):
                     elif op == "Add":
                         bits = TY.get(a, TY.get(b, (64, False)))[0]
                         mx = (1 << bits) - 1
-                        if is_const(b):
+                        if a[0] == "pack" and is_const(b) and is_const(a[2]):
+                            # 2h + p + c <= MAX
+                            uh = z.ub(P_lin_atom(a[1])) if not is_const(a[1]) else a[1][1]
+                            from .zone import lin as _lin
+                            if uh is not None and not is_const(a[1]):
+                                uh = uh + _lin(a[1])[1]
+                            done = uh is not None and 2 * uh + a[2][1] + b[1] <= mx
+                        elif is_const(b):
                             done = z.entails("Le", a, const(mx - b[1]))
                         elif is_const(a):
                             done = z.entails("Le", b, const(mx - a[1]))
